@@ -46,6 +46,14 @@ OBLIGATIONS += [
       "all 36-byte outpoints; unwind 38 (36-byte copy loops)", cost=3, full_domain=True),
 ]
 
+WIRE_FUNCS = ["Transaction::to_bytes_impl", "Transaction::get_id_impl", "TxIn::to_bytes_impl", "TxOut::to_bytes_impl", "VarIntWriter::write_varint (Vec<u8>) + closures", "Transaction::get_ninputs/get_noutputs", "TxOut::get_script_pub_key_size"]
+for (ki, ko, tiers, cost) in ((1, 1, ("quick", "thorough"), 2), (2, 2, ("quick", "thorough"), 5), (0, 1, ("quick", "thorough"), 1), (3, 2, ("thorough",), 9), (1, 3, ("thorough",), 5)):
+    OBLIGATIONS.append(M("C01", f"c01_wire_k{ki}x{ko}", {"q": "wire", "k_in": ki, "k_out": ko}, WIRE_FUNCS,
+                         f"serialisation of a transaction with {ki} inputs x {ko} outputs vs the wire format (version, compact-size counts, outpoint, script length prefix, sequence, value, locktime) and "
+                         "txid = byte-reversed SHA256D(serialisation); all scalars symbolic, every script length symbolic (<= 2^33: all four compact-size classes per script inside one query)", cost=cost, tiers=tiers))
+EXPLANATION["C01"] += (" E2 (mirsym): Transaction/TxIn/TxOut::to_bytes_impl and get_id_impl MIR vs an independent wire-format encoding, scripts opaque with symbolic length. "
+                       "Not decided here: the parse direction (from_bytes_impl/read_in) and the script codec inside a transaction.")
+
 # ---------------------------------------------------------------- C03
 EXPLANATION["C03"] = ("FORKID sighash preimage. E2 (mirsym): the MIR of sighash_preimage_impl -> sighash_bip143 -> hash_inputs/hash_sequence/hash_outputs and all "
                       "their callees (write_varint, get_outpoint_bytes, TxOut::to_bytes_impl, closures, ...) is executed symbolically path by path; every path's "
@@ -57,6 +65,32 @@ for (ki, ko, tiers, cost) in ((1, 1, ("quick", "thorough"), 2), (2, 1, ("quick",
     OBLIGATIONS.append(M("C03", f"c03_bip143_k{ki}x{ko}", {"q": "bip143", "k_in": ki, "k_out": ko}, BIP143_FUNCS,
                          f"{ki} inputs x {ko} outputs, every input index 0..{ki} (incl. one past the end), all six FORKID flags, empty hash cache; all scalars, 64-bit value and "
                          "all script/subscript lengths symbolic (lengths <= 2^33, crossing 252/253, 65535/65536 and 2^32 inside one query)", cost=cost, tiers=tiers))
+
+# ---------------------------------------------------------------- C04
+EXPLANATION["C04"] = ("Sighash independent of call history, decided as ONE INDUCTIVE STEP instead of enumerating histories: invariant Inv = every hash-cache slot is "
+                      "absent or equals the digest of the CURRENT inputs/outputs. E2 executes the MIR of every function whose first parameter is `&mut Transaction` "
+                      "(enumerated from the MIR, so new mutators are included automatically; all 14 SigHash values for those taking a flag) from symbolic states "
+                      "satisfying Inv and asks z3 for a post-state violating Inv; plus: from every Inv state the FORKID preimage equals the specification on the "
+                      "current contents (so a cached value is never observably different from a recomputed one). Violations are replayed as native call histories "
+                      "(prime cache, mutate, sighash vs. sighash on a reparsed copy).")
+OBLIGATIONS += [
+    M("C04", "c04_cache_step_k2x2", {"q": "cache_step", "k_in": 2, "k_out": 2}, ["every fn(&mut Transaction, ..) of the crate: add_/prepend_/insert_/set_ input/output, set_version, set_nlocktime, add_inputs, add_outputs, get_outpoints, sighash_preimage(_impl), sighash_bip143, sighash_legacy, hash_inputs/sequence/outputs, sign_impl, sign_with_k_impl"],
+      "pre-state: 2 inputs x 2 outputs, cache slots all-absent and all-current; arguments symbolic (indices concretised by forking over all positions incl. out of range); scripts <= 252 bytes (one compact-size class: cache logic is length independent); ECDSA signing opaque", cost=8),
+    M("C04", "c04_cache_step_k1x1_allstates", {"q": "cache_step", "k_in": 1, "k_out": 1, "all_states": True}, ["same functions"], "1 input x 1 output, all 8 absent/current slot combinations", cost=8, tiers=("thorough",)),
+    M("C04", "c04_cache_step_k3x2", {"q": "cache_step", "k_in": 3, "k_out": 2}, ["same functions"], "3 inputs x 2 outputs, slots all-absent / all-current", cost=9, tiers=("thorough",)),
+    M("C04", "c04_bip143_from_inv_k2x2", {"q": "bip143", "k_in": 2, "k_out": 2, "inv_states": True, "name": "bip143_inv_k2x2"}, BIP143_FUNCS,
+      "2x2, all six FORKID flags, every index, all 8 Inv cache states: preimage == specification(current contents)", cost=9),
+]
+
+# ---------------------------------------------------------------- C10
+EXPLANATION["C10"] = ("Legacy (pre-fork) sighash preimage. E2 executes sighash_legacy's MIR (clone, script blanking closure, set_input, SINGLE/NONE output and sequence rewriting, "
+                      "derived PartialOrd on SigHash for the ANYONECANPAY test, to_bytes_impl, 4-byte type) and compares each path with the original SignatureHash serialisation. "
+                      "Code-separator removal is the same uninterpreted function on both sides (Script internals are outside E2).")
+LEGACY_FUNCS = ["Transaction::sighash_preimage_impl", "Transaction::sighash_legacy (+closures)", "Transaction::to_bytes_impl", "TxIn::to_bytes_impl", "TxOut::to_bytes_impl", "TxIn::set_unlocking_script/set_sequence",
+                "Transaction::set_input/set_output/add_input/get_input/get_output", "<SigHash as PartialOrd>::partial_cmp (derived)", "VarIntWriter::write_varint"]
+for (ki, ko, tiers, cost) in ((1, 1, ("quick", "thorough"), 2), (2, 2, ("quick", "thorough"), 5), (2, 1, ("quick", "thorough"), 3), (3, 3, ("thorough",), 9), (3, 1, ("thorough",), 5), (1, 2, ("thorough",), 3)):
+    OBLIGATIONS.append(M("C10", f"c10_legacy_k{ki}x{ko}", {"q": "legacy", "k_in": ki, "k_out": ko}, LEGACY_FUNCS,
+                         f"{ki} inputs x {ko} outputs, every input index 0..{ki}, six legacy flags (0x01,0x02,0x03,0x81,0x82,0x83); all scalars and script lengths symbolic", cost=cost, tiers=tiers))
 
 
 def for_property(pid):
